@@ -22,6 +22,8 @@ type ppCore struct {
 	// Supply names a component for which PostProcessBeforeInstantiation hands back the registered
 	// instance itself, short-circuiting its creation.
 	Supply string
+	// NilOnFail: a failing callback answers the usual Go way, (nil, err), instead of (component, err)
+	NilOnFail bool
 }
 
 func (p *ppCore) Naming() string { return p.Nm }
@@ -59,7 +61,13 @@ func (p *ppCore) PostProcessProperties(props []*component_definition.Property, c
 	return nil, p.hit("properties", name)
 }
 func (p *ppCore) GetEarlyBeanReference(c any, name string) (any, error) {
-	return c, p.hit("early", name)
+	if err := p.hit("early", name); err != nil {
+		if p.NilOnFail {
+			return nil, err
+		}
+		return c, err
+	}
+	return c, nil
 }
 
 type Binder interface{ Bind(r *Run) }
